@@ -1,22 +1,40 @@
 #!/bin/bash
-# thorough tier: the quick analysis (tier recorded as thorough) + the checker self-test over the variant corpus
-# of that property; self-test results are merged into the evidence file and never change the exit code.
+# thorough tier: the quick analysis (tier recorded as thorough) + the checker's self-tests for that property:
+#   (1) the variant corpus (variants/<P>/*.json must be detected, variants/_benign must stay clean),
+#   (2) the archived independent seeds of the property (seeded/<P>-*/patch.diff must be detected),
+#   (3) the independent behaviour-preserving patches written for the property (benign_patches*/<P>/*.diff must stay clean).
+# Self-test results are merged into the evidence file and never change the exit code.
 P=$1
 cd "$(dirname "$0")/.."
 bin/fxcheck -prop "$P" -tier thorough
 rc=$?
+TMP=$(mktemp /var/tmp/selftest.XXXXXX.json)
+SEEDS=$(mktemp /var/tmp/selftest.XXXXXX.seeds)
+BEN=$(mktemp /var/tmp/selftest.XXXXXX.benign)
 if ls variants/$P/*.json >/dev/null 2>&1; then
-  TMP=$(mktemp /var/tmp/selftest.XXXXXX.json)
   python3 scripts/variants.py -p "$P" -j 8 --json "$TMP" | grep -E '^(MISSED|INVALID|FALSE_ALARM|SELFTEST)' | sed 's/^MISSED/SELFTEST-MISS/; s/^FALSE_ALARM/SELFTEST-FALSE-ALARM/'
-  python3 - "$P" "$TMP" <<'PY'
-import json,sys
-p,tmp=sys.argv[1],sys.argv[2]
+fi
+python3 scripts/seeds_regress_par.py -j 6 "$P-" > "$SEEDS" 2>&1
+grep -E '^(MISSED|NOAPPLY|INVALID)' "$SEEDS" | sed 's/^/SELFTEST-SEED-/' | cut -c1-200
+if ls benign_patches*/$P/*.diff >/dev/null 2>&1; then
+  python3 scripts/patch_all.py -j 6 -props "$P" $(ls benign_patches*/$P/*.diff) > "$BEN" 2>&1
+  grep -E '^REPORTS' "$BEN" | sed 's/^REPORTS/SELFTEST-BENIGN-REPORTED/'
+fi
+python3 - "$P" "$TMP" "$SEEDS" "$BEN" <<'PY'
+import json,sys,os,re
+p,tmp,seeds,ben=sys.argv[1:5]
 ev=json.load(open(f'evidence/{p}.json'))
-st=json.load(open(tmp))
-ev['coverage']['selftest']=st['summary']
-ev['coverage']['selftest_results']=[{k:r.get(k) for k in ('name','status','report','why')} for r in st['results']]
+cov=ev['coverage']
+if os.path.getsize(tmp)>0:
+    st=json.load(open(tmp))
+    cov['selftest']=st['summary']
+    cov['selftest_results']=[{k:r.get(k) for k in ('name','status','report','why')} for r in st['results']]
+sl=[l.split(None,2) for l in open(seeds) if re.match(r'^(DETECTED|MISSED|NOAPPLY|INVALID)\s',l)]
+cov['selftest_seeds']={'applied':len(sl),'detected':sum(1 for x in sl if x[0]=='DETECTED'),'not_detected':[x[1] for x in sl if x[0]!='DETECTED']}
+if os.path.exists(ben) and os.path.getsize(ben)>0:
+    bl=[l.split() for l in open(ben) if re.match(r'^(CLEAN|REPORTS|INVALID|NOAPPLY|UNSUPPORTED)\s',l)]
+    cov['selftest_benign_patches']={'applied':len(bl),'clean':sum(1 for x in bl if x[0]=='CLEAN'),'reported':[x[1] for x in bl if x[0]=='REPORTS'],'skipped':[x[1] for x in bl if x[0] not in ('CLEAN','REPORTS')]}
 json.dump(ev,open(f'evidence/{p}.json','w'),indent=1)
 PY
-  rm -f "$TMP"
-fi
+rm -f "$TMP" "$SEEDS" "$BEN"
 exit $rc
